@@ -1373,7 +1373,8 @@ def run(chk):
     pending = []
     for c in need_class:
         c["class"] = None
-        if model_ok:
+        c["model_detects"] = bool(model_ok and hits(c, c["m_real"]))
+        if model_ok and not c["model_detects"]:
             for f in FIXES:
                 if hits(c, c["m_single"][f]):
                     c["class"] = (f,)
@@ -1403,6 +1404,10 @@ def run(chk):
                  "source": c["src"], "input": c["input"]}
         if not model_ok:
             entry["class"] = "undecided (model does not build)"
+            fails.append(entry)
+            continue
+        if c.get("model_detects"):
+            entry["class"] = "NONE: the faithful model of the walker reports this violation inside the construct, the implementation does not"
             fails.append(entry)
             continue
         if cl is None:
